@@ -36,6 +36,135 @@ def _exit_reason_is(t: ast.AST, key: str) -> Optional[str]:
     return None
 
 
+def _sets_controller_state(stmt: ast.AST, value_pred) -> bool:
+    return isinstance(stmt, ast.Assign) and any(dotted(t) == "self.controllerState" for t in stmt.targets) and value_pred(stmt.value)
+
+
+def check_finish_handshake(ctx, wf) -> None:
+    """R8: notifyPostMortem is a hot stream (a filter over stateUpdates): an emission that happens before the
+    subscription is never delivered, and nothing else finishes a component once finishCalled is True.  So the
+    subscription has to dominate every trigger of the POSTMORTEM transition."""
+    rule = "C02.R8-finish-handshake"
+    fn = wf.func("ComponentState.finish")
+    ctx.analysed(fn)
+    cfg = CFG(fn)
+    ctx.paths += cfg.paths_count()
+    ctx.require(len(fn.args.args) >= 2, "anchor missing: finish(self, finalState)")
+    final_param = fn.args.args[1].arg
+
+    def is_pm(v):
+        return (dotted(v) or "").endswith("POSTMORTEM_STATE")
+
+    # local functions that (transitively) trigger POSTMORTEM: kill the engine or set the state directly
+    local = {n.name: n for n in ast.walk(fn) if isinstance(n, ast.FunctionDef) and n is not fn}
+
+    def triggers_directly(node: ast.AST) -> bool:
+        for x in ast.walk(node):
+            if isinstance(x, ast.Call) and (dotted(x.func) or "").endswith("engine.kill"):
+                return True
+            if _sets_controller_state(x, is_pm):
+                return True
+        return False
+    trig_fns = {k for k, v in local.items() if triggers_directly(v)}
+    changed = True
+    while changed:
+        changed = False
+        for k, v in local.items():
+            if k not in trig_fns and any(isinstance(c, ast.Call) and isinstance(c.func, ast.Name) and c.func.id in trig_fns for c in ast.walk(v)):
+                trig_fns.add(k)
+                changed = True
+
+    def node_triggers(n: Node) -> bool:
+        if n.ast is None or n.kind not in ("stmt", "test", "for", "with"):
+            return False
+        if isinstance(n.ast, (ast.FunctionDef, ast.ClassDef)):
+            return False
+        if _sets_controller_state(n.ast, is_pm):
+            return True
+        for c in own_calls(n.ast):
+            if (dotted(c.func) or "").endswith("engine.kill"):
+                return True
+            if isinstance(c.func, ast.Name) and c.func.id in trig_fns:
+                return True
+        return False
+    triggers = [n for n in cfg.nodes if node_triggers(n)]
+
+    # setters of the final state: closures whose inner function assigns self.controllerState = <closure parameter>
+    def setter_factories() -> dict:
+        out = {}
+        for k, v in local.items():
+            params = [a.arg for a in v.args.args]
+            for inner in ast.walk(v):
+                if isinstance(inner, ast.FunctionDef) and inner is not v:
+                    for x in ast.walk(inner):
+                        if _sets_controller_state(x, lambda val: isinstance(val, ast.Name) and val.id in params):
+                            out[k] = params.index(x.value.id)
+        return out
+    factories = setter_factories()
+
+    def expr_is_final_setter(e: ast.AST, depth: int = 0) -> bool:
+        if depth > 4 or e is None:
+            return False
+        if isinstance(e, ast.Call):
+            if isinstance(e.func, ast.Name) and e.func.id in factories:
+                idx = factories[e.func.id]
+                return len(e.args) > idx and isinstance(e.args[idx], ast.Name) and e.args[idx].id == final_param
+            # wrappers that keep the callable: report_exceptions(f, log, label)
+            if last_attr(e) == "report_exceptions" and e.args:
+                return expr_is_final_setter(e.args[0], depth + 1)
+            return False
+        if isinstance(e, ast.Name):
+            vals = match.assigned_value(fn, e.id)
+            return bool(vals) and all(expr_is_final_setter(v, depth + 1) for v in vals)
+        return False
+
+    subs = []
+    for n in cfg.nodes:
+        if n.kind != "stmt" or n.ast is None:
+            continue
+        for c in own_calls(n.ast):
+            if last_attr(c) == "subscribe" and (dotted(c.func.value) or "").endswith("notifyPostMortem"):
+                on_next = next((k.value for k in c.keywords if k.arg == "on_next"), c.args[0] if c.args else None)
+                subs.append((n, c, on_next))
+    direct = [n for n in cfg.nodes if n.kind == "stmt" and _sets_controller_state(
+        n.ast, lambda v: isinstance(v, ast.Name) and v.id == final_param)]
+    ctx.require(bool(subs) or bool(direct), "anchor missing: neither notifyPostMortem.subscribe nor controllerState = finalState "
+                                              "in ComponentState.finish")
+    ctx.floor(rule, len(triggers), 1, "POSTMORTEM triggers in ComponentState.finish")
+    for (n, c, on_next) in subs:
+        ok = expr_is_final_setter(on_next)
+        ctx.ob(rule, c, ok, "the notifyPostMortem subscriber sets controllerState to the requested final state" if ok else
+               "the notifyPostMortem subscriber is not (provably) the setter of the requested final state",
+               construct="notifyPostMortem.subscribe(on_next=<setter of finalState>)")
+    good_subs = [n for (n, c, on_next) in subs if expr_is_final_setter(on_next)]
+    # (a) totality
+    rr = cfg.reach([cfg.entry], blocked=good_subs + direct, ignore_labels=("exc",))
+    ok = cfg.exit.id not in rr
+    ctx.ob(rule, fn, ok, "every path through finish() sets the final state or subscribes its setter" if ok else
+           "finish() can return without setting the final state and without subscribing the setter: the component never "
+           "gets a final state and the stage loop does not terminate",
+           construct="all exits of finish() pass final-state assignment or subscription")
+    # (b) subscription dominates each trigger
+    for t in triggers:
+        ok = bool(good_subs) and cfg.every_path_to_passes(t, gates=good_subs)
+        ctx.ob(rule, t.ast, ok,
+               "the final-state setter is subscribed to notifyPostMortem before this POSTMORTEM trigger" if ok else
+               "this makes the component enter POSTMORTEM before the final-state setter is subscribed to notifyPostMortem: "
+               "the stream is hot, so if the engine emits POSTMORTEM before the subscription (thread switch) the event is "
+               "lost, finishCalled is already True so postMortemCheck ignores it, and the component never reaches a final "
+               "state", construct=short(t.ast, 60) + " <- after subscribe")
+    # (c) the direct assignment is not used while RUNNING (engine still alive): only on the not-RUNNING side
+    run_tests = match.test_nodes(cfg, lambda e: "T" if (
+        isinstance(e, ast.Compare) and len(e.ops) == 1 and isinstance(e.ops[0], ast.Eq) and
+        any((dotted(x) or "").endswith("RUNNING_STATE") for x in (e.left, e.comparators[0])) and
+        any(dotted(x) == "self.state" for x in (e.left, e.comparators[0]))) else None)
+    for d in direct:
+        ok = bool(run_tests) and match.only_via_edges(cfg, d, [(n, "F") for n, _ in run_tests])
+        ctx.ob(rule, d.ast, ok, "the immediate transition is taken only when the component is not RUNNING" if ok else
+               "the final state is set immediately while the engine may still be running (its later POSTMORTEM emission "
+               "would find a component already in a final state)", construct="controllerState = finalState <- not RUNNING")
+
+
 def run(ctx) -> None:
     ctx.explanation = (
         "Per-path analysis (statement CFG incl. handlers and finally copies) of the controller callbacks: exactly one "
@@ -55,6 +184,9 @@ def run(ctx) -> None:
         ("C02.R6-verdict", "Controller.run leaves its loop only when nothing is active, raises UnexpectedJobFailureError iff a "
                            "component FAILED, FinalStageNoFinishedLeafComponents when no leaf finished; StageState.state tests "
                            "FAILED before RUNNING/POSTMORTEM before SHUTDOWN"),
+        ("C02.R8-finish-handshake", "ComponentState.finish: every path either sets controllerState to the requested final state or "
+                                    "subscribes a setter of that state to notifyPostMortem, and the subscription is in place "
+                                    "before anything that makes the component enter POSTMORTEM (engine.kill / direct transition)"),
         ("C02.R7-shutdown-table", "aggregating consumer shuts down on any non-replicated SHUTDOWN input or when all replicated inputs are SHUTDOWN"),
     ]:
         ctx.rule(rid, text)
@@ -287,6 +419,9 @@ def run(ctx) -> None:
     okc = any(last_attr(c) == "finishedCheck" for c in source.calls_in(ff, include_nested=True))
     ctx.ob("C02.R5-fake-finish-order", ff, okc, "the subscriber calls finishedCheck" if okc else
            "the notifyFinished subscriber does not call finishedCheck", construct="subscriber -> finishedCheck")
+
+    # ------------------------------------------------ R8
+    check_finish_handshake(ctx, wf)
 
     # ------------------------------------------------ R6
     runf = ctl.func("Controller.run")
